@@ -138,10 +138,23 @@ Summaries relied on:
   S1  (integer conversion, `_int_conv`) utils.unpack(data, size, byteorder, signed) is int.from_bytes(data[:size],
       byteorder, signed=signed); partials of it contribute their bound keywords (read from the resolver), defaults
       are read from the signature.
+  S3  (dissect.cstruct type names, `_CSTRUCT_PRIMS` / `_CSTRUCT_TYPEDEFS`) the internal integer / char types have the
+      fixed width and signedness their name says (uint16: 2 bytes unsigned ...); every built-in typedef name (GNU
+      `uint16_t`, Windows `WORD`/`USHORT`, C `unsigned short`, IDA `_WORD`, `u2`, `ushort` ...) resolves to the very
+      same type object as the internal type it is declared for, so spelling a field or an enum base type with such a
+      name changes nothing; enumerators without an explicit value are numbered consecutively from the previous one
+      (from 0 for the first), as in C.
   S2  (dissect.cstruct) the truth value of a structure instance is not a function of its first field: `__bool__` is
       "any field is truthy" (releases without `__bool__`: always truthy).  With index 0 it is therefore a free atom.
 
-R1  6 (C definitions parsed and compared completely with the required layout table), 1.
+R1  6 (C definitions parsed and compared completely with the required layout table: field names / order / array bound,
+    width and - for index and length - unsignedness of the field types, endianness of the owning cstruct, members of
+    SettingsType with C numbering of enumerators that carry no explicit value), 1.  Field types are resolved by *name*
+    (`_scalar_type`, S3): enum -> its base type, scalar `typedef A B;` of the definition text -> A, built-in typedef name
+    of dissect.cstruct (uint16_t, WORD, unsigned short ...) -> the internal type it names, internal type -> its fixed
+    width; a type name outside these is not guessed: the layout obligation is then undecided as long as everything that
+    is known matches (and violated when a name, the order, an array bound or a known width differs).  The same
+    resolver supplies the header size H and the field intervals of C1-C6.
 R2  3 (per-path key/value terms of the per-setting loop body, analysed once), 2 + 5 (paths selected per scenario of
     view flags / record type / index_type; a path whose selection involves other atoms about these subjects is
     undecided), 1 (structural recognition of the conversion call and of the pretty-table application), 6 (constant
@@ -883,8 +896,9 @@ def _order_of(it, is_base):
 def run(ctx):
     rep = ctx.rep
     rep.explanation = (
-        "Static analysis of beacon.py: Setting TLV layout parsed from CS_DEF (field order, widths, endianness of the "
-        "owning cstruct); path-wise symbolic execution of settings_map (per scenario of view flags and record type: the "
+        "Static analysis of beacon.py: Setting TLV layout parsed from CS_DEF (field order, widths, unsigned index/length, endianness of the "
+        "owning cstruct; field and enum base types resolved by name through enums, scalar typedefs of the definition text and the "
+        "built-in type names of dissect.cstruct); path-wise symbolic execution of settings_map (per scenario of view flags and record type: the "
         "stored value is unpack(size, byteorder, signed) of the raw value resolved through functools.partial or "
         "int.from_bytes, or the raw value; key per index_type; one insertion per setting in tuple order; "
         "MappingProxyType exit), of the four cached views (cache slot, emptiness guard, settings_map arguments; helpers "
@@ -909,8 +923,10 @@ def run(ctx):
                        "views that are not computed by settings_map and contain no record/key pairing (undecided)",
                        "that the User-Agent continuation stops exactly at the NUL (only that no constant bounds it and that it is entered for every completely filled field)",
                        "pretty functions evaluated outside settings_map (e.g. while the settings tuple is built) or by helpers the path executor cannot enter",
-                       "index-36 / User-Agent guards that compare the index, type or length with a value that is not a constant of beacon.py (undecided)"]
+                       "index-36 / User-Agent guards that compare the index, type or length with a value that is not a constant of beacon.py (undecided)",
+                       "the Setting layout when a field type is neither an enum / scalar typedef of the definitions nor a built-in type name of dissect.cstruct (undecided)"]
     rep.trusted_base = ["CPython ast", "networkx dominators", "C-definition parser (csverif.cdefs)", "dissect.cstruct parses fields in declaration order",
+                        "dissect.cstruct: built-in type names (uint16_t, WORD, unsigned short ...) are typedefs of the internal fixed-width types as listed in cstruct.typedefs (table copied into the rule module, lemma S3); enumerators without a value count on from the previous one",
                         "dissect.cstruct: a parsed Setting carries exactly `length` value bytes (counted array) - a 0x80 record has a 128-byte value",
                         "bytes.rstrip/strip/lstrip/find/count/endswith/in have their documented CPython semantics (lemmas U2-U4)",
                         "a module-level name of beacon.py that is bound once and never rebound in the module is not rebound from outside the module",
@@ -923,16 +939,118 @@ def run(ctx):
     r7(ctx)
 
 
+# S3: the scalar types dissect.cstruct knows without any definition (cstruct.typedefs of dissect.cstruct 3.x / 4.x):
+# the internal fixed-width types with (width in bytes, signed) ...
+_CSTRUCT_PRIMS = {
+    "int8": (1, True), "uint8": (1, False), "int16": (2, True), "uint16": (2, False), "int24": (3, True), "uint24": (3, False),
+    "int32": (4, True), "uint32": (4, False), "int48": (6, True), "uint48": (6, False), "int64": (8, True), "uint64": (8, False),
+    "int128": (16, True), "uint128": (16, False), "char": (1, False), "wchar": (2, False),
+}
+# ... and the built-in typedef names, each of which *is* (resolves to the same type object as) the internal type named.
+_CSTRUCT_TYPEDEFS = {
+    "signed char": "int8", "unsigned char": "char", "short": "int16", "signed short": "int16", "unsigned short": "uint16",
+    "int": "int32", "signed int": "int32", "unsigned int": "uint32", "long": "int32", "signed long": "int32",
+    "unsigned long": "uint32", "long long": "int64", "signed long long": "int64", "unsigned long long": "uint64",
+    "BYTE": "uint8", "CHAR": "char", "SHORT": "int16", "WORD": "uint16", "DWORD": "uint32", "LONG": "int32", "LONG32": "int32",
+    "LONG64": "int64", "LONGLONG": "int64", "QWORD": "uint64", "OWORD": "uint128", "WCHAR": "wchar",
+    "UCHAR": "uint8", "USHORT": "uint16", "ULONG": "uint32", "ULONG64": "uint64", "ULONGLONG": "uint64",
+    "INT": "int32", "INT8": "int8", "INT16": "int16", "INT32": "int32", "INT64": "int64", "INT128": "int128",
+    "UINT": "uint32", "UINT8": "uint8", "UINT16": "uint16", "UINT32": "uint32", "UINT64": "uint64", "UINT128": "uint128",
+    "__int8": "int8", "__int16": "int16", "__int32": "int32", "__int64": "int64", "__int128": "int128",
+    "unsigned __int8": "uint8", "unsigned __int16": "uint16", "unsigned __int32": "uint32", "unsigned __int64": "uint64",
+    "unsigned __int128": "uint128", "wchar_t": "wchar",
+    "int8_t": "int8", "int16_t": "int16", "int32_t": "int32", "int64_t": "int64", "int128_t": "int128",
+    "uint8_t": "uint8", "uint16_t": "uint16", "uint32_t": "uint32", "uint64_t": "uint64", "uint128_t": "uint128",
+    "_BYTE": "uint8", "_WORD": "uint16", "_DWORD": "uint32", "_QWORD": "uint64", "_OWORD": "uint128",
+    "u1": "uint8", "u2": "uint16", "u4": "uint32", "u8": "uint64", "u16": "uint128",
+    "__u8": "uint8", "__u16": "uint16", "__u32": "uint32", "__u64": "uint64",
+    "uchar": "uint8", "ushort": "uint16", "uint": "uint32", "ulong": "uint32",
+}
+_C_COMMENT = re.compile(r"//[^\n]*|/\*.*?\*/", re.S)
+_C_TYPEDEF = re.compile(r"(?<![\w])typedef\s+([A-Za-z_][\w ]*?)\s+([A-Za-z_]\w*)\s*;")
+
+
+def _user_typedefs(ctx, cd):
+    """new name -> type text of every scalar `typedef <type> <name>;` in the definition texts loaded into cstruct
+    instance cd (read from the module-level string constants named by cd.sources; comments removed).  A name that is
+    typedef'd twice is dropped (which definition a field sees would depend on the order)."""
+    try:
+        consts = ctx.repo.module("beacon").consts
+    except Exception:
+        return {}
+    out, dup = {}, set()
+    for name in getattr(cd, "sources", ()) or ():
+        v = consts.get(name)
+        if not (isinstance(v, ast.Constant) and isinstance(v.value, str)):
+            continue
+        for m in _C_TYPEDEF.finditer(_C_COMMENT.sub("", v.value)):
+            base, new = " ".join(m.group(1).split()), m.group(2)
+            if base.split()[0] in ("struct", "union", "enum", "flag"):
+                continue
+            if new in out and out[new] != base:
+                dup.add(new)
+            out[new] = base
+    for n in dup:
+        out.pop(n, None)
+    return out
+
+
+def _scalar_type(ctx, cd, t, _seen=()):
+    """(width in bytes, signed) of the integer / char type named t in the C definitions of cstruct instance cd, or None
+    when the name is not one this resolver knows (-> the caller is undecided, never violated, about that field).
+    Resolution, by name only (6): an enum / flag of the definitions has the width of its base type; a scalar
+    `typedef A B;` of the definition text makes B the type A; a built-in typedef name of dissect.cstruct (S3:
+    uint16_t, WORD, unsigned short ...) is the internal type it names; the internal types have their fixed width."""
+    if not isinstance(t, str) or t in _seen or len(_seen) > 16:
+        return None
+    t = " ".join(t.split())
+    seen = _seen + (t,)
+    if t in cd.enums:
+        return _scalar_type(ctx, cd, cd.enums[t].base, seen)
+    user = _user_typedefs(ctx, cd)
+    if t in user:
+        return _scalar_type(ctx, cd, user[t], seen)
+    if t in _CSTRUCT_PRIMS:
+        return _CSTRUCT_PRIMS[t]
+    if t in _CSTRUCT_TYPEDEFS:
+        return _CSTRUCT_PRIMS[_CSTRUCT_TYPEDEFS[t]]
+    return None
+
+
+def _width(ctx, cd, t):
+    ts = _scalar_type(ctx, cd, t)
+    return ts[0] if ts else None
+
+
 def r1(ctx):
     cd = ctx.cdefs("beacon").get("cs_struct")
     if cd is None:
         ctx.rep.error("anchor vanished: cs_struct")
         return
     s = cd.struct("Setting")
-    got = [(f.name, cd.type_size(f.type)[0] if cd.type_size(f.type) else None, f.count) for f in s.fields]
+    scal = [_scalar_type(ctx, cd, f.type) for f in s.fields]
+    got = [(f.name, ts[0] if ts else None, f.count) for f, ts in zip(s.fields, scal)]
     want = [("index", 2, None), ("type", 2, None), ("length", 2, None), ("value", 1, "length")]
-    ctx.ob("R1", "TABLE", "beacon.py::CS_DEF::struct Setting", "fields", got == want and cd.endian == ">",
-           f"Setting fields (name,width,array)={got} endian={cd.endian!r}; required {want} big-endian")
+    # a field whose type name the resolver does not know has no width to compare: names / order / array bounds and the
+    # widths that are known must still match (else violated); if only unknown widths stand in the way -> undecided
+    unknown = [f.type for f, ts in zip(s.fields, scal) if ts is None]
+    rest_ok = cd.endian == ">" and len(got) == len(want) and all(
+        g[0] == w[0] and g[2] == w[2] and (g[1] is None or g[1] == w[1]) for g, w in zip(got, want))
+    if unknown and rest_ok:
+        ctx.undecided("R1", "TABLE", "beacon.py::CS_DEF::struct Setting", "fields",
+                      f"Setting fields (name,width,array)={got}: the width of type(s) {unknown} is not known to the type resolver "
+                      f"(not an enum / typedef of the definitions nor a built-in type name of dissect.cstruct); required {want} big-endian")
+    else:
+        ctx.ob("R1", "TABLE", "beacon.py::CS_DEF::struct Setting", "fields", got == want and cd.endian == ">",
+               f"Setting fields (name,width,array)={got} endian={cd.endian!r}; required {want} big-endian")
+    # "any 16-bit index", "any length 0-65535": the index and length fields are read as unsigned integers (the type field
+    # is not judged: the quantifier admits types 0-3 only, which a signed and an unsigned 16-bit read decode alike)
+    hdr = [(f, ts) for f, ts in zip(s.fields, scal) if f.name in ("index", "length") and f.count is None]
+    signed = [f.name for f, ts in hdr if ts is not None and ts[1]]
+    if hdr and (all(ts is not None for _f, ts in hdr) or signed):
+        ctx.ob("R1", "TABLE", "beacon.py::CS_DEF::struct Setting", "index and length unsigned", not signed,
+               f"index/length are decoded as unsigned integers (signed: {signed or 'none'}; types {[f.type for f, _t in hdr]}, "
+               f"enum base types {[cd.enums[f.type].base for f, _t in hdr if f.type in cd.enums]})")
     types = [f.type for f in s.fields[:2]]
     ctx.ob("R1", "TABLE", "beacon.py::CS_DEF::struct Setting", "field types", types == ["BeaconSetting", "SettingsType"],
            f"index/type are parsed as enums {types}")
@@ -2200,20 +2318,20 @@ class _CompleteRecord(_ZeroIndex):
         cd = ctx.cdefs("beacon").get("cs_struct")
         try:
             fields = list(cd.struct("Setting").fields)
-            fixed = [cd.type_size(x.type)[0] for x in fields if x.count is None]
+            fixed = [_width(ctx, cd, x.type) for x in fields if x.count is None]
             var = [x for x in fields if x.count is not None]
             if all(isinstance(w, int) for w in fixed) and all(isinstance(x.count, str) for x in var):
                 self.hdr = sum(fixed)  # a record whose counted arrays are empty is complete with the fixed fields alone
             for x in fields[1:]:
                 if x.count is not None:
                     continue
-                w = cd.type_size(x.type)[0]
+                w = _width(ctx, cd, x.type)
                 members = _enums(ctx).get(x.type)
                 if members:
                     self.ivals[x.name] = (min(members.values()), max(members.values()))
                 elif isinstance(w, int):
                     self.ivals[x.name] = (0, 256 ** w - 1)
-            w0 = cd.type_size(fields[0].type)[0]
+            w0 = _width(ctx, cd, fields[0].type)
             self.idx_hi = 256 ** w0 - 1 if isinstance(w0, int) else None
         except Exception:
             self.hdr, self.ivals, self.idx_hi = None, {}, None
